@@ -228,6 +228,30 @@ func (c13) Run(c core.Case, w *core.Worker) core.Result {
 			res.Add("restarts", 1)
 			continue
 		}
+		if r.Chance(1, 20) {
+			// Backup in the middle (under mmap it unmaps and shrinks every file), then an explicit
+			// Sync: whatever was unflushed before the Backup must be durable when Sync returns
+			bdir := w.Dir("bk")
+			cur = core.Op{Kind: "backup"}
+			curKind = "backup"
+			s.Step++
+			s.Log = append(s.Log, "backup")
+			var berr error
+			core.Safe(func() { berr = s.DB.Backup(bdir) })
+			os.RemoveAll(bdir)
+			if berr != nil {
+				fail("backup", "Backup failed: "+berr.Error())
+				break
+			}
+			res.Add("backups", 1)
+			cur = core.Op{Kind: "sync"}
+			curKind = "sync"
+			if !s.Exec(cur) {
+				break
+			}
+			curKind = "between"
+			continue
+		}
 		if sc.Cfg.Sync == 2 && sc.Cfg.BytesPerSync > 1 && r.Chance(1, 3) {
 			// aim the cumulative unflushed size exactly at the threshold (and one below / above)
 			want := int64(sc.Cfg.BytesPerSync) - pendingSum + int64(r.Range(-1, 1))
